@@ -2,6 +2,7 @@ package mpx
 
 import (
 	"github.com/basecomplextech/baselibrary/bin"
+	"github.com/basecomplextech/baselibrary/alloc/bytequeue"
 	"github.com/basecomplextech/baselibrary/status"
 	"github.com/basecomplextech/spec/internal/zzverif"
 	"github.com/basecomplextech/spec/proto/pmpx"
@@ -18,6 +19,8 @@ type zzC06 struct {
 	e        *zzConnEnv
 	ida, idb bin.Bin128
 	a, b     *channel
+	idc      bin.Bin128
+	cOpened  bool
 	aFreed   bool // user reference of A released (Free / handler exit)
 	aHandler bool // A's handler has run
 	bSent    [][]byte
@@ -88,11 +91,32 @@ func (s *zzC06) op(op int, nested bool) {
 		m := zzverif.Bytes(1)
 		s.deliver(s.frame(0, s.idb, m))
 		s.bSent = append(s.bSent, m)
+	case 8: // the peer opens a third channel C (takes a channel state from the pool)
+		zzverif.Assume(!s.cOpened)
+		s.cOpened = true
+		open, err := pmpx.BuildChannelOpen(pmpx.NewMessageWriterBuffer(ZZ_AcquireBuffer()), s.idc, nil, 1<<16)
+		zzverif.Assume(err == nil)
+		zzverif.Assert(s.e.c.receiveMessage(open, false).OK(), "open of a third channel failed")
 	case 6: // A's side ends the channel with SendAndClose (only before the handler released it)
 		zzverif.Assume(!s.aFreed)
 		st := s.a.SendAndClose(zzNewCtx(), zzverif.Bytes(1))
 		zzverif.Assert(st.OK() || st.Code == status.CodeClosed, "send-and-close status")
 	}
+}
+
+// zzHookQueue wraps a channel's receive queue: one other complete operation may run just before a
+// write reaches the queue (between the channel's closed-checks and the write).
+type zzHookQueue struct {
+	bytequeue.Queue
+	hook func()
+}
+
+func (q *zzHookQueue) Write(msg []byte) (bool, status.Status) {
+	if h := q.hook; h != nil {
+		q.hook = nil
+		h()
+	}
+	return q.Queue.Write(msg)
 }
 
 func ZZ_C06_History() {
@@ -110,6 +134,14 @@ func ZZ_C06_History() {
 	cb, _ := s.e.channels.Get(s.idb)
 	s.a, s.b = ca.(*channel), cb.(*channel)
 
+	s.idc[0][0] = 0xC0
+	origPool := channelStatePool
+	pool := &zzPool[*channelState]{newFn: func() *channelState { return origPool.New() }}
+	channelStatePool = pool
+	defer func() { channelStatePool = origPool }()
+	hq := &zzHookQueue{Queue: s.a.unwrap().recvQueue}
+	s.a.unwrap().recvQueue = hq
+
 	k := zzverif.Param("K")
 	preempted := false
 	for step := 0; step < k; step++ {
@@ -119,15 +151,39 @@ func ZZ_C06_History() {
 			// what the other actors (user/handler of A, send loop, peer) may do in between
 			seqs := [][]int{{7}, {4}, {7, 4}, {6}, {6, 4}, {5}, {2}}
 			seq := seqs[zzverif.Choice(len(seqs))]
-			s.e.channels.hook = func(string) {
+			run := func() {
 				for _, o := range seq {
 					s.op(o, true)
 				}
+			}
+			switch zzverif.Choice(3) {
+			case 0:
+				s.e.channels.hook = func(string) { run() } // at the channel-map access
+			case 1:
+				hq.hook = run // between A's closed-checks and the write to its receive queue
+			case 2:
+				// right after a released channel state became available in the state pool: the
+				// peer opens another channel, which takes that state
+				pool.hook = func() { s.op(8, true) }
 			}
 			zzverif.Reach("preemption-armed")
 		}
 		s.op(op, false)
 		s.e.channels.hook = nil
+		hq.hook = nil
+		pool.hook = nil
+	}
+	if s.cOpened {
+		// C is a working channel of its own: registered under its id, receives what is sent to it
+		cc, ok := s.e.channels.Get(s.idc)
+		zzverif.Assert(ok, "third channel not registered")
+		c := cc.(*channel)
+		m := zzverif.Bytes(1)
+		s.deliver(s.frame(0, s.idc, m))
+		zzverif.Assert(c.unwrap() != nil && c.unwrap().id == s.idc, "third channel lost its state")
+		data, ok, st := c.ReceiveAsync(zzNewCtx())
+		zzverif.Assert(ok && st.OK() && string(data) == string(m), "third channel does not receive its data")
+		zzverif.Reach("third-channel")
 	}
 	// B is undisturbed: exactly what was delivered to it, in order; the connection is still open
 	zzverif.Assert(!s.e.closed.set, "connection-closed")
